@@ -12,3 +12,10 @@ Proof. exact (ex_intro _ _ (conj theory_tetragonal mass_tetragonal)). Qed.
 Theorem C14_theory_mass_hexagonal_refuted :
   exists th, @theory NumR Hexagonal = Ok th /\ rsum th <= 98 / 100.
 Proof. exact (ex_intro _ _ (conj theory_hexagonal mass_hexagonal)). Qed.
+
+(* rhombohedral: misorientations_random raises AssertionError for the edge 105 (every bin from
+   104 on), so the theoretical histogram -- and the index -- is an error *)
+Theorem C14_rhombohedral_density_undefined :
+  @density_edge NumR Rhombohedral (edge 105) = Err AssertionError /\
+  exists e, @theory NumR Rhombohedral = Err e.
+Proof. exact (conj density_rhombohedral_105 theory_rhombohedral_error). Qed.
